@@ -146,3 +146,11 @@ P("C04", "srcfacts+mirfacts+rules",
   "rename_all ▷ camelCase default and every key hole is the serialized name in both modes; optional markers are guarded by exactly isOptional, "
   "which is last-segment == Option; for each of the four parameter/channel combinations both modes hand invoke the same key set.",
   "equality of serde-style camelCase and Tauri's conversion for all identifiers is not decided", a=True, b=True)
+
+P("C07", "srcfacts+mirfacts+rules",
+  "static analysis: who-may-call with argument provenance for the five seed sites (CALLS), arm-by-arm coverage of the structure collector (match coverage), dominance of the transitive closure over every insertion into the declared set (ORDER), literal form of the serde filter (TABLE), provenance of the emitted set (FLOW)",
+  "Decides: type names are harvested from, and referenced types collected at, all five translation sites with no truncating adaptor; the "
+  "collector has an arm per TypeStructure variant (no wildcard) that recurses into every bound child; every insertion into the declared set "
+  "is preceded by discover_nested_dependencies; harvesting uses only the depth-aware splitter; the serde filter is derive ∋ (Serialize ∨ "
+  "Deserialize) by path and is consulted when indexing and extracting; the renderer receives the used set; Result keeps only T.",
+  "scanner-on-text ≡ scanner-on-TypeStructure for exotic spellings is not decided", a=True, b=True)
